@@ -1,61 +1,59 @@
 (* C13: conversions do not interfere through shared inputs.  Statements only; lemmas in proofs/C13Facts.v.
-   Model: EmitAst (the three emitters return the IR as they leave it); spec: C13Spec.
-   The docstring layer (to_docstring / emit.docstring) is a parameter (td, dsf, doc_op) exactly as it is an
-   explicit input of the EmitAst emitters; the theorems quantify over every such layer.
-   emit.docstring as a fourth call on the shared IR is the abstract doc_op. *)
+   Model: EmitAst (the three AST emitters return the IR as they leave it); spec: C13Spec.
+   What is assumed about the docstring layer (another builder's model), and nothing else:
+   - the TEXT to_docstring / emit.docstring return is arbitrary (parameters td, dsf; the theorems hold for all);
+   - that to_docstring leaves the IR it is given as it found it is NOT a hypothesis: it is part of the EmitAst
+     model of emit.function / emit.class_ (they return, and read, the IR they were handed) and is compared
+     with the caller's IR after every call by the emitast correspondence family;
+   - emit.docstring as a fourth call on the shared IR is the abstract doc_op; the full statement needs
+     doc_pure doc_op (it does not write into the IR).  That hypothesis is FALSE of the implementation today
+     (emit_param_str -> set_default_doc writes doc/default into the shared param dicts): finding class
+     docstring-rewrites-shared-ir, observed by the oracle; it cannot be dropped (C13_doc_pure_needed). *)
 From Coq Require Import List.
 From Coq Require String.
 Import String.StringSyntax.
 From DT Require Import PyStr PyVal PyAst IR EmitAst C13Spec C13Facts.
 Import ListNotations.
 
-(* the unguarded statement is false of the faithful model: argparse_function writes typ = "Any" into the
-   shared parameter dicts, and the function emitted next gains `x: Any` *)
-Theorem C13_refuted : ~ C13_statement.
-Proof. exact C13_refuted_lemma. Qed.
-Print Assumptions C13_refuted.
+(* the full statement: any sequence, any length, any options, any docstring text *)
+Theorem C13 : C13_statement.
+Proof. exact C13_lemma. Qed.
+Print Assumptions C13.
 
-(* ---- footprints: everything the three emitters write into the caller's IR ---- *)
+(* sequences over emit.class_, emit.function and emit.argparse_function: no assumption at all *)
+Theorem C13_emitters : C13_emitters_statement.
+Proof. exact C13_emitters_lemma. Qed.
+Print Assumptions C13_emitters.
+
+(* per IR: it is enough that emit.docstring leaves THIS IR alone (needed only if a docstring call occurs) *)
+Theorem C13_partial : forall pt td dsf doc_op ops i,
+    (existsb is_docstring ops = true -> doc_stable_on doc_op i) ->
+    run_shared pt td dsf doc_op ops i = run_fresh pt td dsf doc_op ops i.
+Proof. exact C13_frame_lemma. Qed.
+Print Assumptions C13_partial.
+
+(* ---- footprints: the three emitters write nothing into the caller's IR ---- *)
 Theorem C13_class_writes_nothing : forall pt i ec cn bs ds ww tds s i2,
     emit_class pt i ec cn bs ds ww tds = Ok (s, i2) -> i2 = i.
 Proof. exact emit_class_ir. Qed.
 Print Assumptions C13_class_writes_nothing.
 
-Theorem C13_function_writes_what_to_docstring_writes : forall pt i fn ft it kw tds s i2,
-    emit_function pt i fn ft it kw tds = Ok (s, i2) -> exists text, tds = Ok (text, i2).
+Theorem C13_function_writes_nothing : forall pt i fn ft it kw tds s i2,
+    emit_function pt i fn ft it kw tds = Ok (s, i2) -> i2 = i.
 Proof. exact emit_function_ir. Qed.
-Print Assumptions C13_function_writes_what_to_docstring_writes.
+Print Assumptions C13_function_writes_nothing.
 
-Theorem C13_argparse_footprint : forall pt i edd fn ft wd ww ds s i2,
-    emit_argparse pt i edd fn ft wd ww ds = Ok (s, i2) ->
-    i2 = ir_with_params i (map (fun kv => (fst kv, argparse_footprint (snd kv))) (ir_params i)).
+Theorem C13_argparse_writes_nothing : forall pt i edd fn ft wd ww ds s i2,
+    emit_argparse pt i edd fn ft wd ww ds = Ok (s, i2) -> i2 = i.
 Proof. exact emit_argparse_ir. Qed.
-Print Assumptions C13_argparse_footprint.
+Print Assumptions C13_argparse_writes_nothing.
 
-(* ---- non-interference, any sequence length: inside the guard (if an argparse call occurs, every
-   parameter has a typ and a doc key) and when the docstring layer leaves this IR as it found it (needed
-   only if a function / docstring call occurs), every call gives the artefact it gives on a fresh copy ---- *)
-Theorem C13_partial : forall pt td dsf doc_op ops i,
-    (existsb uses_shared_docstring ops = true -> td_stable_on td doc_op i) ->
-    guard_C13 ops i = true ->
-    run_shared pt td dsf doc_op ops i = run_fresh pt td dsf doc_op ops i.
-Proof. exact C13_frame_lemma. Qed.
-Print Assumptions C13_partial.
-
-(* sequences over the class emitter alone never interfere, whatever the docstring layer does (this is the
-   interference the property text names; it is gone since emit.class_ copies its argument) *)
-Theorem C13_class_only : forall pt td dsf doc_op ops i,
-    forallb is_class ops = true ->
-    run_shared pt td dsf doc_op ops i = run_fresh pt td dsf doc_op ops i.
-Proof. exact C13_class_only_lemma. Qed.
-Print Assumptions C13_class_only.
-
-Theorem C13_class_neutral : forall pt td dsf doc_op ec cn bs ds ww edd ops i a i',
-    run_op pt td dsf doc_op (OpClass ec cn bs ds ww edd) i = Ok (a, i') ->
-    run_shared pt td dsf doc_op (OpClass ec cn bs ds ww edd :: ops) i
-    = do rest <- run_shared pt td dsf doc_op ops i; Ok (a :: rest).
-Proof. exact C13_class_neutral_lemma. Qed.
-Print Assumptions C13_class_neutral.
+(* a docstring call that appends a default sentence to the shared prose changes the argparse function
+   emitted next: the hypothesis on emit.docstring is needed *)
+Theorem C13_doc_pure_needed :
+  run_shared [] w_td w_dsf w_doc_op w_ops w_ir <> run_fresh [] w_td w_dsf w_doc_op w_ops w_ir.
+Proof. exact C13_doc_pure_needed_lemma. Qed.
+Print Assumptions C13_doc_pure_needed.
 
 (* run_shared is the fold_left that threads the one IR object *)
 Theorem C13_run_shared_is_fold : forall pt td dsf doc_op ops i,
@@ -64,7 +62,6 @@ Proof. exact run_shared_fold_spec. Qed.
 Print Assumptions C13_run_shared_is_fold.
 
 Example C13_nonvacuous :
-  guard_C13 w_ops_ok w_ir_ok = true
-  /\ exists l, run_shared [] w_td w_dsf w_doc_op w_ops_ok w_ir_ok = Ok l /\ List.length l = 4.
+  exists l, run_shared [] w_td w_dsf w_doc_op w_ops_ok w_ir_ok = Ok l /\ List.length l = 5.
 Proof. exact C13_nonvacuous_lemma. Qed.
 Print Assumptions C13_nonvacuous.
